@@ -235,7 +235,7 @@ class Attribute:
 
         # count
         count = self.count
-        if count and count != 1:
+        if count is not None and count != 1:  # also 0: an empty list has no value to be read
             bts += write_struct_uvari(count)
             characteristics += '1'
         else:
